@@ -399,6 +399,7 @@ def check_shared_flags(ctx, rep, rule='C11.S', only=None):
             return sorted({self_attr(x) for x in ast.walk(test) if isinstance(x, ast.Attribute) and self_attr(x) and isinstance(x.ctx, ast.Load)
                            and ('need' in x.attr and 'update' in x.attr)})
         guarded = {}   # flag -> {cache: (fn, if-node)}
+        companions = {}   # (flag, cache) -> other flags in the same refresh test (`if self.f or self.g:`)
         clears = []    # (flag, fn, if-node or None, clear stmt)
         for (nm, kind), fn in fns.items():
             for node in ast.walk(fn):
@@ -417,6 +418,7 @@ def check_shared_flags(ctx, rep, rule='C11.S', only=None):
                                   and not any(x is y for st in node.body for y in ast.walk(st))}
                         for a in body_stores & served:
                             guarded.setdefault(flag, {}).setdefault(a, (nm, node))
+                            companions.setdefault((flag, a), set()).update(set(flag_of_test(node.test)) - {flag})
                 if isinstance(node, ast.Assign) and isinstance(node.value, ast.Constant) and node.value.value is False:
                     for t in node.targets:
                         a = self_attr(t)
@@ -437,6 +439,17 @@ def check_shared_flags(ctx, rep, rule='C11.S', only=None):
             n += 1
             refreshed = stores_of(blk if blk is not None else fn)
             missing = sorted(c for c, (where_nm, _) in caches.items() if c not in refreshed)
+
+            def covered_by_companion(cache):
+                """the cache is also refreshed under another flag g that is raised wherever `flag` is raised: clearing `flag` alone leaves g up"""
+                for g in companions.get((flag, cache), ()):
+                    raise_f = [f2 for f2 in fns.values() if any(isinstance(x, ast.Assign) and any(self_attr(t) == flag for t in x.targets) and isinstance(x.value, ast.Constant)
+                                                                 and x.value.value is True for x in ast.walk(f2)) and f2.name != '__init__']
+                    if raise_f and all(any(isinstance(x, ast.Assign) and any(self_attr(t) == g for t in x.targets) and isinstance(x.value, ast.Constant) and x.value.value is True
+                                           for x in ast.walk(f2)) for f2 in raise_f):
+                        return True
+                return False
+            missing = [c for c in missing if not covered_by_companion(c)]
             mod = next((k.module for k in cls.internal_mro() if any(b is fn for b in k.node.body)), cls.module)
             rep.check(rule, f"{cls.qualname}.{nm}::self.{flag}-cleared-where-every-cache-it-guards-is-refreshed", not missing, where(mod, st),
                       {'caches_guarded_by_flag': {c: v[0] for c, v in caches.items()}, 'refreshed_here': sorted(refreshed & set(caches))},
@@ -937,6 +950,17 @@ def check_transform_listen(ctx, rep, kinds, cls: ClassInfo):
 
 
 # ---------------------------------------------------------------------------
+def _grad_switched_off(e) -> bool:
+    """`torch.set_grad_enabled(False)` or `torch.set_grad_enabled(<…> and not <x>.requires_grad)`: gradient recording is off whenever the written tensor requires grad"""
+    if not (isinstance(e, ast.Call) and (dotted_name(e.func) or '').endswith('set_grad_enabled') and e.args):
+        return False
+    a = e.args[0]
+    if isinstance(a, ast.Constant) and a.value is False:
+        return True
+    conj = a.values if isinstance(a, ast.BoolOp) and isinstance(a.op, ast.And) else [a]
+    return any(isinstance(v, ast.UnaryOp) and isinstance(v.op, ast.Not) and 'requires_grad' in ast.unparse(v.operand) for v in conj)
+
+
 def check_inplace(ctx, rep, rule='C11.W', only=None):
     """in-place writes to <p>.tensor (directly or through a local alias) are followed by a
     notification on all paths."""
@@ -1031,7 +1055,7 @@ def check_inplace(ctx, rep, rule='C11.W', only=None):
                     guarded = False
                     p_, child_ = getattr(st, '_parent', None), st
                     while p_ is not None and p_ is not fn:
-                        if isinstance(p_, ast.With) and any('no_grad' in ast.unparse(i.context_expr) for i in p_.items):
+                        if isinstance(p_, ast.With) and any('no_grad' in ast.unparse(i.context_expr) or _grad_switched_off(i.context_expr) for i in p_.items):
                             guarded = True
                         if isinstance(p_, ast.If) and 'requires_grad' in ast.unparse(p_.test):
                             # only the branch on which the tensor is known not to require grad is safe
